@@ -853,6 +853,17 @@ impl BigDecimal {
             return BigDecimal::one();
         }
 
+        if self.is_negative() {
+            // the alternating series cancels catastrophically for negative
+            // arguments: use e^x = 1 / e^|x| instead
+            return BigDecimal::one() / self.abs().exp_with_guard_digits();
+        }
+
+        self.exp_with_guard_digits().with_prec(DEFAULT_PRECISION)
+    }
+
+    /// e^x for x > 0, with a few digits more than the default precision
+    fn exp_with_guard_digits(&self) -> BigDecimal {
         let target_precision = DEFAULT_PRECISION;
 
         let precision = self.digits();
@@ -878,7 +889,7 @@ impl BigDecimal {
 
             let trimmed_result = result.with_prec(target_precision + 5);
             if prev_result == trimmed_result {
-                return trimmed_result.with_prec(target_precision);
+                return trimmed_result;
             }
             prev_result = trimmed_result;
         }
